@@ -568,8 +568,10 @@ def coq_trace(trace, skip_rounds=False):
 
 def coq_case(case, obs):
     if case["kind"] == "dino":
+        import numpy as np
+        r32 = Fraction(float(np.float32(case["ratio"][1][0] / case["ratio"][1][1])))   # what linspace ends with
         cfg = Rec(dH=case["H"], dW=case["W"], dV=case["V"], dMinP=case["minp"], dPn=case["p"][0], dPd=case["p"][1],
-                  dRn=case["ratio"][1][0], dRd=case["ratio"][1][1])
+                  dRn=r32.numerator, dRd=r32.denominator)
         masks = [[[ch == "1" for ch in row] for row in m] for m in obs["mask"]]
         return coq(C("CDino", cfg, bool(case["ctx"]), case["B"], coq_trace(obs["trace"]), masks))
     cfg = Rec(jH=case["H"], jW=case["W"], jNEnc=Nat(case["nE"]), jNPred=Nat(case["nP"]), jMinKeep=case["min_keep"],
